@@ -35,32 +35,36 @@ pub fn internal(cmd: &str, _args: &[String]) -> Option<i32> {
     match cmd {
         "c01-child" => Some(c01::child_main()),
         "c01-stress" => Some(c01::stress_main(_args)),
+        // debug aid: run one fuzz input file through a fuzz target (`tvh fuzz-one <target> <file>`)
+        "fuzz-one" => {
+            let data = std::fs::read(&_args[1]).expect("read input");
+            fuzz_entry(&_args[0], &data);
+            Some(0)
+        }
         _ => None,
     }
 }
 
-/// Fuzz targets (coverage-guided tier): name -> (property id, sub name, strategy, run).
-/// The strategy is built once per thread.
+/// Fuzz targets (coverage-guided tier, thorough only): name -> (property id, sub name,
+/// scenario type, sanitizer, run).  The fuzzer's bytes are decoded structurally into the
+/// scenario type (engine::bytesde), clamped into the generator's domain by the module's
+/// `fuzz_sanitize`, and run through the same interpreter + oracle as the random tier.
 pub fn fuzz_entry(target: &str, data: &[u8]) {
     use crate::engine::{fuzz_one, fuzz_report};
     macro_rules! t {
-        ($prop:expr, $sub:expr, $ty:ty, $strat:expr, $run:expr) => {{
-            thread_local! { static S: proptest::strategy::BoxedStrategy<$ty> = $strat; }
-            S.with(|st| fuzz_report($prop, $sub, fuzz_one($prop, st, &$run, data)));
-        }};
+        ($prop:expr, $sub:expr, $ty:ty, $san:expr, $run:expr) => {
+            fuzz_report($prop, $sub, fuzz_one::<$ty>($prop, &$san, &$run, data))
+        };
     }
     match target {
-        "c02" => t!("C02", "random", c02::Scenario, c02::strategy(), c02::run),
-        "c03" => t!("C03", "random", c03::Scenario, c03::strategy(), c03::run),
-        "c04" => t!("C04", "random", c04::Scenario, c04::strategy(), c04::run),
-        "c06" => t!("C06", "walk", c06::Scenario, c06::strategy(), c06::run),
-        "c08" => t!("C08", "random", c08::Scenario, c08::strategy(), c08::run),
-        "c09" => t!("C09", "routing", c09::Scenario, c09::strategy(), c09::run),
-        "c10" => t!("C10", "random", c10::Scenario, c10::strategy(), c10::run),
-        "c12" => t!("C12", "pairing", c12::Scenario, c12::strategy(), c12::run),
-        "c15" => t!("C15", "ports", c15::PortScenario, c15::port_strategy(), c15::run_ports),
-        "c16" => t!("C16", "monitors", c16::Scenario, c16::strategy(), c16::run),
-        "c18" => t!("C18", "direct", c18::Scenario, c18::strategy(), c18::run),
+        "c02" => t!("C02", "random", c02::Scenario, c02::fuzz_sanitize, c02::run),
+        "c03" => t!("C03", "random", c03::Scenario, c03::fuzz_sanitize, c03::run),
+        "c08" => t!("C08", "random", c08::Scenario, c08::fuzz_sanitize, c08::run),
+        "c09" => t!("C09", "routing", c09::Scenario, c09::fuzz_sanitize, c09::run),
+        "c12" => t!("C12", "pairing", c12::Scenario, c12::fuzz_sanitize, c12::run),
+        "c15" => t!("C15", "ports", c15::PortScenario, c15::fuzz_sanitize, c15::run_ports),
         other => panic!("unknown fuzz target {other}"),
     }
 }
+
+pub const FUZZ_TARGETS: &[&str] = &["c02", "c03", "c08", "c09", "c12", "c15"];
